@@ -229,6 +229,9 @@ def unit_angular(prop="C20"):
             for pc4, v4 in p4:
                 u.obligations.append(Obligation(f"{prop}.hertz_to_angular_of_angular_to_hertz", pi_ax + list(pc2) + list(pc4) + [r != 0], to_real(v4) == a, "lemma", None))
         u.canaries.append(Obligation(f"{prop}.canary.angular_off", pi_ax + [r != 0], (f * 2 * PI / r) * r / (2 * PI) == f + 1, "canary", None))
+        # replay: the C20 stand-in's round-trip cases of the two helpers (rates of every parity, non-integral rates included)
+        u.to_case = lambda ob: [{"check": "angular", "seed": sd, "salt": k, "n": 200} for sd in (0, 1) for k in (0, 1, 2)]
+        u.replay_module = "rtc.c20"
         return u
     unit.__name__ = "angular"
     return unit
